@@ -39,6 +39,7 @@ def run(ctx):
     ctx.do(rule_key_order)
     ctx.do(rule_escapes)
     ctx.do(rule_number_constants)
+    ctx.do(rule_find_results_tested_for_found, rule_id="C16.number-constants")
     ctx.do(rule_markers_released)
     from .hidden_state import rule_no_hidden_state
     ctx.do(rule_no_hidden_state, "C16.history-independence")
@@ -538,3 +539,48 @@ def rule_markers_released(ctx):
                       expected="del markers[%s] on every path to the end" % keytxt, found="bypass", path=g.describe_path(p) if p else None)
     if n < 2:
         raise AnalysisError("fewer than 2 marker registrations found in the canonicaliser (%d)" % n)
+
+
+def rule_find_results_tested_for_found(ctx, rule_id="C16.number-constants"):
+    """The number formatter works on the text of repr(float) and locates 'e', '.', '-', 'n' with str.find().  A find() result
+    is a POSITION or -1: the only meaningful tests are "found" / "not found" / "at the front" (comparisons with 0 or -1).  A
+    threshold of 1 (`q > 1`) treats a hit at position 1 as a miss -- the exponent of every one-digit mantissa ('1e+22',
+    '5e-324') is then not taken off, and 1e22 is written with its Python spelling.  Every comparison of a find() result (the
+    call itself or a name bound to one) with an integer literal uses 0 or -1."""
+    run = ctx.run
+    prog = ctx.prog
+    n = 0
+    for modname in (NUM,):
+        m = prog.module(modname)
+        for fi in sorted((f for f in prog.functions.values() if f.module is m), key=lambda f: f.id):
+            from ..forward import flow_of
+            fl = flow_of(fi)
+
+            def is_find(v):
+                return isinstance(v, ast.Call) and isinstance(v.func, ast.Attribute) and v.func.attr in ("find", "rfind")
+
+            def position_name(nm):
+                """every definition of the name that reaches this use is a find() call"""
+                at = fl.node_for(nm)
+                defs = fl.rd.reaching(at, nm.id) if at is not None else []
+                return bool(defs) and all(is_find(v) for _dn, v in defs)
+            k_ = 0
+            for c in body_walk(fi.node):
+                if not (isinstance(c, ast.Compare) and len(c.ops) == 1):
+                    continue
+                l_, r_ = c.left, c.comparators[0]
+                for pos, lit in ((l_, r_), (r_, l_)):
+                    is_pos = (isinstance(pos, ast.Name) and position_name(pos)) or is_find(pos)
+                    val = lit.value if isinstance(lit, ast.Constant) else (
+                        -lit.operand.value if isinstance(lit, ast.UnaryOp) and isinstance(lit.op, ast.USub) and isinstance(lit.operand, ast.Constant) else None)
+                    if is_pos and isinstance(val, int) and not isinstance(val, bool):
+                        n += 1
+                        k_ += 1
+                        run.check(val in (0, -1), rule_id, key(fi.module.relpath, fi.qualname, "find-result-tested-for-found#%d" % k_),
+                                  "a str.find() result is compared with %d: a hit at a position below that counts as a miss -- the "
+                                  "exponent / fraction of a number whose text has the character that early is not split off, and the "
+                                  "number is written in Python's spelling instead of the ES6 one" % val, file=fi.module.relpath,
+                                  line=c.lineno, function=fi.qualname, expected="comparison with 0 or -1 (found / not found / at the front)",
+                                  found=short(c, 60))
+    if n < 4:
+        raise AnalysisError("fewer than 4 tests of find() results in the number formatter (%d): anchors lost" % n)
